@@ -151,6 +151,9 @@ func newWorld(s *simkit.Sim, sc *Scenario) (*World, error) {
 	for k, f := range sc.Net.Plan {
 		w.Net.Plan[k] = f
 	}
+	for k, f := range sc.Net.Persist {
+		w.Net.Persist[k] = f
+	}
 	w.Net.RandomFaults = sc.Net.Random
 	w.Net.FaultRate = sc.Net.Rate
 	w.Net.FaultKinds = sc.Net.Kinds
@@ -171,7 +174,11 @@ func newWorld(s *simkit.Sim, sc *Scenario) (*World, error) {
 		w.Stores = append(w.Stores, st)
 	}
 	s.OnAbort = func() { w.Net.CutAll(nclients) }
-	for _, k := range keyPool {
+	pool := keyPool
+	if len(sc.Keys) > 0 {
+		pool = sc.Keys
+	}
+	for _, k := range pool {
 		w.allKeys = append(w.allKeys, []byte(k))
 	}
 	return w, nil
@@ -254,6 +261,7 @@ func (w *World) runTxn(p *TxnProg, h *TxnHist) {
 	var aggCur map[string]uint64
 	var cp *unionstore.MemDBCheckpoint
 	var cpBuf map[string]*string
+	cpDepth := 0
 	for _, op := range p.Ops {
 		r := OpRes{Op: op, Own: copyBuf(h.Buf)}
 		r.Inv = s.Stamp()
@@ -388,16 +396,23 @@ func (w *World) runTxn(p *TxnProg, h *TxnHist) {
 			if n := len(stages); n > 0 {
 				txn.GetMemBuffer().Release(stages[n-1].h)
 				stages = stages[:n-1]
+				if cp != nil && cpDepth > len(stages) {
+					cp = nil
+				}
 			}
 		case "cleanup":
 			if n := len(stages); n > 0 {
 				txn.GetMemBuffer().Cleanup(stages[n-1].h)
 				h.Buf = stages[n-1].buf
 				stages = stages[:n-1]
+				if cp != nil && cpDepth > len(stages) {
+					cp = nil
+				}
 			}
 		case "checkpoint":
 			cp = txn.GetMemBuffer().Checkpoint()
 			cpBuf = copyBuf(h.Buf)
+			cpDepth = len(stages)
 		case "revert":
 			if cp != nil {
 				txn.GetMemBuffer().RevertToCheckpoint(cp)
@@ -482,7 +497,16 @@ func (w *World) runTxn(p *TxnProg, h *TxnHist) {
 		_ = txn.Rollback()
 	} else {
 		h.EndKind = "commit"
-		err := txn.Commit(ctx)
+		cctx := ctx
+		if p.CancelMs > 0 {
+			var cancel context.CancelFunc
+			cctx, cancel = context.WithCancel(ctx)
+			tm := time.AfterFunc(time.Duration(p.CancelMs)*time.Millisecond, cancel)
+			defer tm.Stop()
+			defer cancel()
+			w.Sim.Count("fault.commit-context-cancel-armed")
+		}
+		err := txn.Commit(cctx)
 		h.CommitErr = classify(err)
 		if err == nil {
 			h.CommitTS = txn.CommitTS()
@@ -713,6 +737,9 @@ func (w *World) runReads(r *rand.Rand, cl int, phase string, n int, plan *ReadPl
 		if len(cands) > 0 && r.Intn(5) != 0 {
 			ts = cands[r.Intn(len(cands))]
 		}
+		if r.Intn(4) == 0 {
+			ts = now // a current snapshot meets the locks of transactions in flight
+		}
 		snap := st.GetSnapshot(ts)
 		batch := plan.Batch
 		if batch > 0 {
@@ -721,7 +748,15 @@ func (w *World) runReads(r *rand.Rand, cl int, phase string, n int, plan *ReadPl
 		snap.SetKeyOnly(plan.KeyOnly)
 		// a few reads on the same snapshot object: cold then warm cache, different paths
 		reps := 2 + r.Intn(4)
+		forward := r.Intn(3) == 0 // read, let time pass, move the SAME snapshot object forward to a fresh timestamp, read again
 		for j := 0; j < reps; j++ {
+			if forward && j == reps/2 {
+				time.Sleep(time.Duration(5+r.Intn(4000)) * time.Millisecond)
+				if now2, err := st.GetOracle().GetTimestamp(ctx, &oracleOpt); err == nil {
+					ts = now2
+					snap.SetSnapshotTS(ts)
+				}
+			}
 			rd := SnapRead{Phase: phase, TS: ts, Batch: batch, KeyOnly: plan.KeyOnly, Warm: j > 0}
 			fired := len(w.Net.Fired)
 			t0 := time.Now()
@@ -815,7 +850,7 @@ func (w *World) runReads(r *rand.Rand, cl int, phase string, n int, plan *ReadPl
 			w.readsMu.Lock()
 			w.Reads = append(w.Reads, rd)
 			w.readsMu.Unlock()
-			if r.Intn(6) == 0 && len(cands) > 0 {
+			if !forward && r.Intn(6) == 0 && len(cands) > 0 {
 				// move the snapshot to another timestamp: nothing cached for the old one may leak
 				ts = cands[r.Intn(len(cands))]
 				snap.SetSnapshotTS(ts)
